@@ -37,8 +37,15 @@ class FalsyHandler:
 
 
 class CallableTask:
+    """a task target may be any callable returning a coroutine -- an instance of a class with value equality (a
+    plain dataclass, say) is not hashable"""
+    __hash__ = None
+
     def __init__(self, fn):
         self.fn = fn
+
+    def __eq__(self, other):
+        return isinstance(other, CallableTask) and self.fn is other.fn
 
     async def __call__(self):
         return await self.fn()
